@@ -28,6 +28,13 @@ PertAllowed(line, lx, pt) ==
       [] pt.kind = "flip" -> pt.p \in FlipPositions(line, lx)
       [] OTHER -> FALSE
 
+\* the listing `list` ("10 ...\n"), read by the model's tokenizer, is the stored line `toks`
+ReadsBackAs(list, toks) ==
+    list # <<>> /\ list[Len(list)] = LF /\
+    LET body == SubSeq(list, 1, Len(list) - 1)
+        pl == ParseLineNumber(body)
+    IN  pl.some /\ LET re == Tokenize(body, pl.end) IN re.err = "" /\ ToksAgree(re.toks, toks)
+
 \* Sequence of reasons for which the event fails ("" entries removed).
 Judge(ev) ==
     LET line == ev.line
@@ -44,11 +51,15 @@ Judge(ev) ==
                 THEN "C13:error" ELSE "",
             \* M_C13 on the observation itself
             IF ev.err = "" /\ ~RangesWellFormed(line, ObsLx(ev)) THEN "C13:ranges_malformed" ELSE "",
+            IF ev.err # "" /\ ~(ev.ea < Len(line) /\ LET pre == Tokenize(Slice(line, 0, ev.ea), 0) IN pre.err = "" /\ ToksAgree(pre.toks, ev.toks))
+                THEN "C13:error_prefix" ELSE "",
             \* M_C12: every perturbation the property allows left the real tokens unchanged
             IF \E i \in 1..Len(ev.pert) : PertAllowed(line, lx, ev.pert[i]) /\ ~ev.pert[i].same
                 THEN "C12:perturbation" ELSE "",
             \* pi_C14 / M_C14
-            IF ev.listed /\ lx.err = "" /\ lx.toks # <<>> /\ ll.ok /\ ll.s # ev.list THEN "C14:listing" ELSE "",
+            \* a listing spelled differently from the model's is a violation when, read by the model's
+            \* tokenizer, it is not the line that was stored
+            IF ev.listed /\ lx.err = "" /\ lx.toks # <<>> /\ ll.ok /\ ll.s # ev.list /\ ~ReadsBackAs(ev.list, ev.toks) THEN "C14:listing" ELSE "",
             IF ev.listed /\ ~ev.reload_same THEN "C14:reload" ELSE "" >>
     IN  SelectSeq(reasons, LAMBDA r : r # "")
 
